@@ -136,6 +136,28 @@ def run(cx):
         else:
             cx.ob("R14.unordered-escape", key, True, "reviewed: " + rv[1], f.loc(t.line), nontrivial=False)
 
+    # ---- R14.no-early-exit: a loop over a hash-ordered container runs to the end ----------------------------------
+    # (leaving it early - break, return, `?` - makes WHICH elements were processed depend on the hash seed: a cap on
+    #  the number of diagnostics, or "the first error", then differs from run to run even if the results are sorted)
+    nloops = 0
+    for f, t, a0 in sites:
+        if t.dst is None:
+            continue
+        nx = [c for c in f.calls() if re.search(r"Iterator>?::next$", c.declared or c.callee or "") and op_place(c.args[0]) is not None
+              and local_flows_from(f, op_place(c.args[0]).local, lambda d: d is t, 8) is not None]
+        for N in nx:
+            sw = switch_on_call_result(f, N)
+            if sw is None or "Some" not in sw["arms"] or "None" not in sw["arms"]:
+                continue
+            nloops += 1
+            p = path_without(f, sw["arms"]["Some"], [sw["arms"]["None"]] + f.return_blocks(), [N.bb])
+            owner = (f.root or f.id)
+            k = sum(1 for f2, t2, _ in sites if (f2.root or f2.id) == owner and (t2.bb < t.bb))
+            cx.ob("R14.no-early-exit", "%s|loop-over-%s#%d" % (owner, (t.callee or "").split("::")[-1], k), p is None,
+                  "the loop over %s can be left before the container is exhausted (%s): which elements were processed - "
+                  "the diagnostics that survive a cap, the first error that is returned - depends on the per-process "
+                  "hash seed" % (a0[:50], fmt_path(f, p)[:120] if p else ""), f.loc(N.line))
+    cx.floor("R14.no-early-exit loops over hash-ordered containers", nloops, 5)
     # ---- R14.sorted-diagnostics ----------------------------------------------------------------
     root = fb.one(r"^isograph_schema::validate::validate_entire_schema$")
     n = 0
